@@ -538,6 +538,7 @@ func c44StressChild(tier string, rep int) int {
 			run.Count("panics:"+sc.name, panics)
 		}
 		run.Count("scenario_runs", 1)
+		run.Sample(map[string]interface{}{"scenario": sc.name, "goroutines": G, "ops_per_goroutine": counts[0]})
 		run.Checkpoint()
 	}
 	return 0
